@@ -9,5 +9,6 @@ CONSTANTS
   NT <- NumText
   NTL <- NumTextLoc
   CV <- Convert
+  RV <- ReadVec
 INVARIANTS LawDecRoundTrip LawDecBigAgrees LawDecBigRoundTrip LawDecLocRoundTrip LawDecLocShape
 CHECK_DEADLOCK FALSE
